@@ -91,6 +91,42 @@ def _one(sc):
     return dict(sc=sc, bad=bad, added=len(m) - len(p))
 
 
+def _quic_one(job):
+    from harness.quicrun import run_quic, observed_dgrams
+    b, seed, params = job
+    outs = {}
+    for tag, opts in (("plain", []), ("meta", ["-a"])):
+        try:
+            c, payload, fl, cap, res = run_quic(b, seed, params, opts=opts)
+        except Exception:
+            import traceback
+            return dict(machinery=traceback.format_exc()[-1500:])
+        if res.crashed:
+            return dict(b=b, seed=seed, params=params, bad=[f"{tag}: run aborted: " + res.exc.strip().splitlines()[-1]])
+        got, probs = observed_dgrams(res, fl, opts)
+        if got is None or probs:
+            return dict(b=b, seed=seed, params=params, bad=[f"{tag}: output malformed or missing: {probs[:1]}"])
+        outs[tag] = [(d, pl) for d, _t, pl in got]
+    # every piece of stream data of the plain export appears with -a, same order, same direction (it may share its datagram with
+    # handshake bytes)
+    bad, j, off = [], 0, 0
+    for d, pl in outs["plain"]:
+        found = False
+        while j < len(outs["meta"]):
+            md, mp = outs["meta"][j]
+            k = mp.find(pl, off) if md == d else -1
+            if k >= 0:
+                off = k + len(pl)
+                found = True
+                break
+            j += 1
+            off = 0
+        if not found:
+            bad.append(f"stream data of a {d} datagram ({len(pl)} bytes) exported without -a is missing (or out of order / in the wrong direction) with -a")
+            break
+    return dict(b=b, seed=seed, params=params, bad=bad, nplain=len(outs["plain"]), nmeta=len(outs["meta"]))
+
+
 def run(chk):
     quick = chk.tier == "quick"
     rng = random.Random(chk.seed)
@@ -120,6 +156,24 @@ def run(chk):
                         packets_added_by_a=res.get("added")), limit=3)
         for b in res["bad"]:
             chk.violation(b, dict(scenario=res["sc"], findings=res["bad"]))
+    # QUIC: behaviours of Quic.tla (as C02), also with byte-identical duplicate datagrams, with and without -a
+    from checks import c02
+    qb = c02.gen(chk, dict(MaxApp="3"), 15 if quick else 300, chk.seed + 5)
+    rng.shuffle(qb)
+    qjobs = []
+    for b in qb[: 200 if quick else 4000]:
+        prm = c02.params_for(rng, quick)
+        prm["dup_dgrams"] = rng.random() < 0.5
+        qjobs.append((b, rng.randrange(1 << 30), prm))
+    for res in pool_map(_quic_one, qjobs):
+        if "machinery" in res:
+            raise Exception("QUIC replay failed in the harness: " + res["machinery"])
+        chk.evaluations += 2
+        chk.distinct.add(json.dumps([res["seed"], res["params"]], sort_keys=True))
+        for bd in res["bad"]:
+            chk.violation(f"QUIC suite {res['b']['suite']} retry={res['b']['retry']} 0rtt={res['b']['zrtt']} dup={res['params'].get('dup_dgrams')}: {bd}",
+                          dict(behaviour=res["b"], seed=res["seed"], params=res["params"], why=bd))
+    chk.extra["quic_runs"] = 2 * len(qjobs)
     chk.rule = ("behaviours of TlsSession (as C01) each run with and without -a on the same capture; evaluations = runs; "
                 "distinct = distinct scenarios; all exercise the -a branches (every connection has handshake records)")
 
